@@ -353,3 +353,52 @@ def execute(scn):
                      'units': len(units), 'edges': len(edges),
                      'observed': [list(u) for u in obs][:8]}
     return res
+
+
+def shrinks(scn):
+    if scn['kind'] != 'project':
+        if scn.get('count', 0) > 10:
+            c = copy.deepcopy(scn)
+            c['count'] = max(10, scn['count'] // 2)
+            yield c
+        return
+    P = scn['project']
+    # drop one declared dependency
+    for a in sorted(P['apps']):
+        for si, st in enumerate(P['apps'][a]['steps']):
+            for kind in sorted(st.get('app_deps') or {}):
+                for i in range(len(st['app_deps'][kind])):
+                    c = copy.deepcopy(scn)
+                    del c['project']['apps'][a]['steps'][si]['app_deps'][
+                        kind][i]
+                    yield c
+            for ei, evo in enumerate(st['evos']):
+                for kind in sorted(evo.get('deps') or {}):
+                    for i in range(len(evo['deps'][kind])):
+                        c = copy.deepcopy(scn)
+                        del c['project']['apps'][a]['steps'][si]['evos'][ei][
+                            'deps'][kind][i]
+                        yield c
+    # drop an app nobody depends on
+    named = set()
+    for a in P['apps']:
+        for st in P['apps'][a]['steps']:
+            for tl in list((st.get('app_deps') or {}).values()) + [
+                    x for e in st['evos']
+                    for x in (e.get('deps') or {}).values()]:
+                for t in tl:
+                    named.add(t[0] if isinstance(t, list) else t)
+    for a in sorted(P['apps']):
+        if a not in named and len(P['apps']) > 2:
+            c = copy.deepcopy(scn)
+            del c['project']['apps'][a]
+            c['project']['order'] = [x for x in c['project']['order']
+                                     if x != a]
+            yield c
+    # drop new models
+    for a in sorted(P['apps']):
+        for si, st in enumerate(P['apps'][a]['steps']):
+            if st.get('new_models'):
+                c = copy.deepcopy(scn)
+                c['project']['apps'][a]['steps'][si].pop('new_models')
+                yield c
